@@ -145,7 +145,7 @@ def replay(case):
         if exp.err is None and got.err is None and got.retired != exp.retired:
             res.append((dict(oracle="padded-equals-sequential", field="padded-order"), "retire order differs"))
         return res
-    _ref, bad = pipecmp.lockstep(prog, regs, words, maxc, hazard, WANT)
+    _ref, bad = pipecmp.lockstep(prog, regs, words, maxc, hazard, WANT, style=case.get("style", "plain"))
     return [(dict(oracle=ORACLE, field=f), f"[{rv.prog_text(prog)}]: {d}") for f, d in bad]
 
 
